@@ -6,13 +6,14 @@
    MergeSetupOps, ElideEmptySetupOps, HoistSetupCallsIntoConditionals in the form the pass performs
    them ("guarded rule models" of Model/AccRules.v; `guarded model = real rewrite` and the decidable
    side conditions are evaluated per recorded real rewrite by L1), and any finite sequence of them.
-   NOT proved: PullSetupOpsOutOfLoops (model Model/AccDedup.v rule_pull; tied to the code by exact
-   per-rewrite correspondence (L1) and trace comparison of the real before/after IR (L2) only; see
-   C01_pull_refuted).  The first-round structural-map theorems about simplify/elide are kept below. *)
+   Third round: PullSetupOpsOutOfLoops on programs in full-field form (C01_pull_rule; without
+   full_field_form the rule is refuted, C01_pull_refuted = known finding F23), and any finite sequence
+   of all FIVE rules (C01_rules_preserve_star).  The first-round structural-map theorems about
+   simplify/elide are kept below. *)
 From Snax Require Import Base.Prelude Model.AccIR Model.AccSem Model.AccInfer Model.AccDedup
   Model.AccWeave Model.AccRules
   Proofs.AccSemProofs Proofs.AccInferProofs Proofs.AccDedupProofs Proofs.AccRenameProofs
-  Proofs.AccGhostProofs Proofs.AccRulesProofs.
+  Proofs.AccGhostProofs Proofs.AccRulesProofs Proofs.AccPullProofs.
 
 Definition c01_two_cfg_early : prog :=
   mkProg [0%nat; 1%nat; 2%nat; 3%nat; 4%nat; 5%nat]
@@ -126,8 +127,9 @@ Example C01_hoist_own_result_declined :
 Proof. split; vm_compute; reflexivity. Qed.
 Print Assumptions C01_hoist_own_result_declined.
 
-(* rules_preserve_star, for the four proved rules: any finite sequence of applications in any order
-   (driver-independent).  PullSetupOpsOutOfLoops is NOT a constructor of [step]: see below. *)
+(* the four rules whose theorems need no full-field hypothesis: any finite sequence of applications in
+   any order (driver-independent), with EQUAL registers at every launch.  The five-rule version
+   (C01_rules_preserve_star) follows the pull theorem below. *)
 Theorem C01_rules_preserve_star_partial :
   forall p p', steps p p' -> forall orc args, trace_sim_b (run orc p args) (run orc p' args) = true.
 Proof. intros p p' H orc args. apply trace_strong_sim. exact (steps_preserve orc args p p' H). Qed.
@@ -141,14 +143,48 @@ Proof.
 Qed.
 Print Assumptions C01_star_nonvacuous.
 
-(* PullSetupOpsOutOfLoops.  Full statement (NOT proved):
-     pull_preserves : full_field_form p = true -> wf_prog T p = true -> rule_pull fresh tg p = Some p' ->
-                      forall orc args, trace_sim_b (run orc p args) (run orc p' args) = true.
-   What is missing: an invariant saying that every hoisted field is re-written by a full-field setup
-   before any launch observes it (on the zero-trip path: by the first setup after the loop; inside
-   the loop: by the matched first setup of the body), i.e. a "pending fields" simulation relation
-   that tolerates register differences on fields that are dead until re-written, through arbitrary
-   control flow.  Without [full_field_form] the statement is false: *)
+(* PullSetupOpsOutOfLoops on programs in full-field form (C01's quantifier): every launch is directly
+   preceded by a setup of its accelerator that writes the accelerator's whole field set.  Then the
+   registers of the accelerator whose setup is hoisted may differ arbitrarily between the two runs at
+   every other program point — each launch only observes what its own setup writes — so the
+   simulation leaves them unconstrained and compares launches on the full field sets.  [rule_pull_g] is
+   the rewrite as the pass performs it (new setup in front of the loop, the loop's initial state
+   replaced), applied in context; gok_prog = ghost typing before/after (decidable).  L1 evaluates
+   `rule_pull_g = real rewrite` on every recorded pull rewrite and reports how many of them were
+   applied to a program in full-field form (mid-pipeline programs usually are not: then only L1/L2). *)
+Theorem C01_pull_rule :
+  forall G a fresh tg p p', full_field_form p = true -> rule_pull_g G a fresh tg p = Some p' ->
+  gok_prog G p = true -> gok_prog G p' = true ->
+  forall orc args, trace_sim_b (run orc p args) (run orc p' args) = true.
+Proof. intros G a fresh tg p p' Hff H Hg Hg' orc args. exact (pull_preserves G orc a fresh tg p p' args Hff H Hg Hg'). Qed.
+Print Assumptions C01_pull_rule.
+
+Example C01_pull_nonvacuous :
+  let p := c01_two_cfg_early in let G := prog_ghosts p ++ [40%nat] in
+  full_field_form p = true /\
+  exists p', rule_pull_g G 0%nat [40%nat] 16%nat p = Some p' /\ gok_prog G p = true /\ gok_prog G p' = true
+             /\ prog_eqb p' p = false /\ rule_pull [40%nat] 16%nat p = Some p'.
+Proof. split; [reflexivity|]. eexists. split; [reflexivity|]. repeat split; reflexivity. Qed.
+Print Assumptions C01_pull_nonvacuous.
+
+(* rules_preserve_star, ALL FIVE rules: any finite sequence of applications in any order
+   (driver-independent).  [FF a] is the full field set of accelerator a; a pull step requires the
+   program it is applied to to be in full-field form relative to FF (inside [pull_hyp]); the four
+   other rules have no such requirement.  With FF := the field sets of p itself the side condition
+   [within_block] is a theorem (within_FF_of). *)
+Theorem C01_rules_preserve_star :
+  forall FF p p', steps5 FF p p' -> within_block FF (p_body p) = true ->
+  forall orc args, trace_sim_b (run orc p args) (run orc p' args) = true.
+Proof. intros FF p p' H Hw orc args. exact (steps5_sim FF orc args p p' H Hw). Qed.
+Print Assumptions C01_rules_preserve_star.
+
+Theorem C01_rules_preserve_star_own_fields :
+  forall p p', steps5 (FF_of p) p p' ->
+  forall orc args, trace_sim_b (run orc p args) (run orc p' args) = true.
+Proof. intros p p' H orc args. exact (steps5_sim (FF_of p) orc args p p' H (within_FF_of p)). Qed.
+Print Assumptions C01_rules_preserve_star_own_fields.
+
+(* Without [full_field_form] the pull rewrite changes what a launch observes: *)
 Definition c01_pull_before : prog :=
   mkProg [0%nat; 1%nat; 2%nat; 3%nat; 4%nat; 5%nat; 6%nat]
    [SSetup 0%nat 7%nat None [(2%nat, 0%nat)];
